@@ -115,3 +115,55 @@ def gen_handover(repo):
 
 from py2lean import Refuse
 MODULES.append({'name': 'PlaneHandover', 'src': 'lentil/plane.py', 'generator': gen_handover, 'props': ['C07']})
+
+
+# ---------------------------------------------------------------------------------------------------------------------
+# The phase argument of Plane.multiply's phasor: `amp*np.exp(2*np.pi*1j*opd/wavefront.wavelength)`.
+# Translated from the expression tree (not matched as text): the argument of np.exp must be  i * t  with a real t; the
+# generated definition is t as an expression in (twoPi, opd, wavelength) — sign, factor order and which attribute
+# divides are whatever the source says, so a sign flip or a different denominator CHANGES the definition (and breaks
+# C07.planePh_eq_exp); anything that is not a product/quotient of 2, np.pi, 1j, opd and wavefront.<attr> is refused.
+def gen_phase(repo):
+    import os
+    mod = ast.parse(open(os.path.join(repo, 'lentil/plane.py')).read())
+    fn = _find_method(mod, 'Plane', 'multiply')
+    exps = [n for n in ast.walk(fn) if isinstance(n, ast.Call) and ast.unparse(n.func) == 'np.exp']
+    if len(exps) != 1 or len(exps[0].args) != 1: raise Refuse('Plane.multiply: expected exactly one np.exp(...) call')
+    arg = exps[0].args[0]
+    state = {'i': 0, 'two': 0, 'pi': 0, 'neg': 0}
+    def tr(e):
+        """Lean term of the REAL multiplier; the single factor 1j is dropped and counted, unary minus signs are collected"""
+        if isinstance(e, ast.UnaryOp) and isinstance(e.op, ast.USub): state['neg'] += 1; return tr(e.operand)
+        if isinstance(e, ast.BinOp) and isinstance(e.op, ast.Mult):
+            a, b = tr(e.left), tr(e.right)
+            if a is None: return b
+            if b is None: return a
+            return f'({a} * {b})'
+        if isinstance(e, ast.BinOp) and isinstance(e.op, ast.Div):
+            a, b = tr(e.left), tr(e.right)
+            if a is None or b is None: raise Refuse('phase argument: 1j or 2*pi in a quotient position')
+            return f'({a} / {b})'
+        if isinstance(e, ast.Constant):
+            if isinstance(e.value, complex) and e.value == 1j: state['i'] += 1; return None
+            if isinstance(e.value, complex) and e.value == -1j: state['i'] += 1; state['neg'] += 1; return None
+            if e.value == 2: state['two'] += 1; return '@two'
+            raise Refuse(f'phase argument: constant {e.value!r}')
+        src = ast.unparse(e)
+        if src == 'np.pi': state['pi'] += 1; return '@pi'
+        if src == 'opd': return 'opd'
+        if isinstance(e, ast.Attribute) and ast.unparse(e.value) == 'wavefront': return f'wavefront_{e.attr}'
+        raise Refuse(f'phase argument: term {src}')
+    t = tr(arg)
+    neg = state.pop('neg')
+    if state != {'i': 1, 'two': 1, 'pi': 1}: raise Refuse(f'phase argument: expected one each of 1j, 2, np.pi, got {state}')
+    if '(@two * @pi)' not in t: raise Refuse('phase argument: 2 and np.pi are not adjacent factors')
+    t = t.replace('(@two * @pi)', 'twoPi')
+    if neg % 2: t = f'(-{t})'
+    params = ['twoPi', 'opd'] + sorted({w for w in __import__('re').findall(r'wavefront_\w+', t)})
+    outer = exps[0]
+    text = ('/-- translated from `plane.py:Plane.multiply` (line %d): the real multiplier `t` of `np.exp(1j * t)` in the phasor\n'
+            '`%s` -/\n' % (outer.lineno, ast.unparse(outer)) +
+            'def planePhaseArg {R : Type} [Mul R] [Div R] [Neg R] ' + ' '.join(f'({p} : R)' for p in params) + ' : R :=\n  ' + t + '\n')
+    return text, [f'np.exp argument: {ast.unparse(arg)}', f'real multiplier: {t}']
+
+MODULES.append({'name': 'PlanePhase', 'src': 'lentil/plane.py', 'generator': gen_phase, 'props': ['C07', 'C03']})
